@@ -9,10 +9,25 @@ def run(ctx):
     # direction B: real clock, no hooks; TLC evaluates the history laws on every recorded run
     thorough = ctx.tier == "thorough"
     dump = os.path.join(ctx.scratch, "rollruns.ndjson")
-    res = ctx.vh(["rollreal", "--dump", dump, "--runs", "12" if thorough else "6", "--seconds", "12" if thorough else "4"],
-                 timeout=600)
-    rep.absorb(res, traces=False)
-    rep.traces += int(res.get("traces", 0))
+    # the process's time zone matters (file names carry local time, the retention scan launched by every rotation compares
+    # ages): one run set in the sandbox's zone with a long retention, one each far west / far east of UTC with the shortest
+    import concurrent.futures
+    variants = [([], "12" if thorough else "6"), (["--zone", "west", "--maxage", "1"], "7" if thorough else "4"),
+                (["--zone", "east", "--maxage", "1"], "7" if thorough else "4")]
+    ctx.build()
+
+    def one(iv):
+        i, (extra, runs) = iv
+        d = dump + ".%d" % i
+        return d, ctx.vh(["rollreal", "--dump", d, "--runs", runs, "--seconds", "12" if thorough else "4"] + extra, timeout=600)
+    with concurrent.futures.ThreadPoolExecutor(max_workers=3) as ex:
+        results = list(ex.map(one, enumerate(variants)))
+    with open(dump, "w") as out:
+        for d, res in results:
+            rep.absorb(res, traces=False)
+            rep.traces += int(res.get("traces", 0))
+            if os.path.exists(d):
+                out.write(open(d).read())
     nruns = sum(1 for _ in open(dump))
     if nruns == 0:
         raise vf.Infra("no real-time rolling run was recorded")
@@ -32,7 +47,8 @@ def run(ctx):
                 "steps, 2 writers, 6 writes, outages, restart) replayed on a real RollingFileAppender under a virtual clock "
                 "with writer goroutines parked at every instrumentation point; after every step directory listing, file "
                 "contents, /proc/self/fd, published handles and marker are compared.  Direction B: real-clock runs (1-2 s intervals, 1-16 "
-                "writers, idle gaps, a stop/start cycle, lines 1 B - 64 KiB) recorded without hooks; TLC evaluates ExactlyOnce, "
+                "writers, idle gaps, a stop/start cycle, lines 1 B - 64 KiB; file names with and without per-cent signs; the process in the "
+                "sandbox's zone with a long retention and 11 h west / 13:45 h east of UTC with a retention of one hour) recorded without hooks; TLC evaluates ExactlyOnce, "
                 "NotBeforeName, SequentialFresh and NamesWithinRun on each (RollingHistory.tla).  Non-trivial = distinct step sequences."
                 % rep.extra.get("simulated_behaviours", 0))
     rep.assumptions = ["TLC/SANY", "Go toolchain", "verif hooks: virtual clock + park points in Write/rotate",
